@@ -559,7 +559,9 @@ var litTail = []string{"", "a", "ab", "abc", "x", "v1", "é", "A", ":", "*", "+"
 	// literals that contain the delimiter characters themselves (several occurrences inside one constant part)
 	"a/", "a/b", "x-y", "a.b", "b/c/", "comments/", "-", "v1.2.", "a-b-c", "x/y-z.w",
 	// literals that overlap themselves once their (optional) trailing slash is left out: "-a-/", "--/", ".a./"
-	"a-/", "-/", "a-a-/", "a./"}
+	"a-/", "-/", "a-a-/", "a./",
+	// capitals outside ASCII (case-insensitive routing folds ASCII letters only, on both sides alike)
+	"\u00c9", "\u00dcber", "\u00c9/"}
 var valPool = []string{"x", "xy", "1", "é", "X", "a b", "a+b", "100%", "~", "日本", "x_y", "q", "\u212a1", "\u0130b", "\u023aab",
 	// values that end in a proper prefix of such a literal
 	"x-a", "x-", "y-a-a", "x.a"}
